@@ -175,7 +175,7 @@ func longLivedScenario(warm int) *vsched.Scenario {
 		Name:       fmt.Sprintf("pairing/echo/%d-requests-served-then-3-callers-at-once", warm),
 		Bound:      0,
 		FirstOnly:  true,
-		MaxSteps:   400000000,
+		MaxSteps:   4000000,
 		MaxThreads: 100,
 		Body: func() {
 			var target *fpgo.CorDef[int]
